@@ -30,6 +30,7 @@ CONSTANTS
   MaxUserCalls = 1
   InstallKinds = {"jump", "bool"}
   Faults = {"mmap", "mprotect"}
+  SiteReuse = FALSE
   MaxLives = 2
   Gates = {"ok", "sig", "bool", "null"}
   MaxInstalls = 2
